@@ -17,7 +17,7 @@ import io
 
 from hypothesis import strategies as st
 
-from vlib import bootstrap, gen, model, libroute, eamtab, parsers, compare
+from vlib import bootstrap, gen, model, libroute, eamtab, parsers, compare, rewrite
 from vlib.num import DomainError, EN
 
 bootstrap.activate()
@@ -42,7 +42,7 @@ ASSUMPTIONS = [
 ]
 REQUIRED = {"route:writeSetFL": 10, "route:class": 10, "route:potable:setfl": 10, "route:potable:lammps_eam_alloy": 10,
             "elements>=3": 20, "reversed_pair": 20, "zero_filled_pair": 20, "override_beats_builtin": 10,
-            "zero_filled_function": 10, "zero_override_beats_builtin": 2}
+            "zero_filled_function": 10, "zero_override_beats_builtin": 2, "rewrite:2_writes": 2}
 FMT = ("e", 16)
 
 
@@ -54,12 +54,20 @@ def _case(draw, n_min=1, n_max=4):
     return m
 
 
+@st.composite
+def _rewrite(draw):
+    m = draw(_case(1, 3))
+    m["route"] = draw(st.sampled_from(["writeSetFL", "class"]))
+    m["rewrite"] = draw(rewrite.plan(m))
+    return m
+
+
 def strategy(tier):
     return _case()
 
 
 def strata(tier):
-    return [("1-2 elements", _case(1, 2), 4), ("3-4 elements", _case(3, 4), 6)]
+    return [("1-2 elements", _case(1, 2), 4), ("3-4 elements", _case(3, 4), 6), ("rewrite", _rewrite(), 2)]
 
 
 def budget(tier):
@@ -171,9 +179,62 @@ def verify_setfl(m, text, api_order, ctx, fs=False, adp=False):
     return v
 
 
+def _domain(m):
+    ref = model.Ref(m["env"])
+    nr, dr, nrho, drho = eamtab.grids(m)
+    for a, pd in m["embed"]:
+        _series(ref, pd, nrho, drho)
+    for a, pd in m["density"]:
+        _series(ref, pd, nr, dr)
+    for a, b, pd in m["pair"]:
+        _series(ref, pd, nr, dr)
+
+
+def _check_rewrite(m, cls):
+    rw, route = m["rewrite"], m["route"]
+    one = rw["same_object"] and route == "class"
+    cls = cls + ["rewrite:%d_writes" % len(rw["ks"]), "rewrite:" + ("one_object" if one else "same_callables"), "rewrite:" + rw["kind"]]
+    w = rewrite.Wrapper(m, rw)
+    pairs, eams = eamtab.api_objects(m, wrap=w)
+    api_order = [e.species for e in eams]
+    g = m["grid"]
+    nr, dr, nrho, drho = eamtab.grids(m)
+    tab = None
+    v = []
+    for n, k in enumerate(rw["ks"]):
+        w.set(k)
+        mm = rewrite.scaled_model(m, rw, k)
+        ctx = "%s\n%s" % (rewrite.describe(m, rw, n, k), eamtab.potable_text(mm, "setfl"))
+        try:
+            _domain(mm)
+        except (DomainError, OverflowError, ZeroDivisionError):
+            return {"v": [], "cls": cls, "nt": False, "skip": True}
+        fp = io.StringIO()
+        try:
+            if route == "writeSetFL":
+                ap.writeSetFL(nrho, drho, nr, dr, eams, pairs, out=fp)
+            else:
+                if tab is None or not one:
+                    tab = SetFL_EAMTabulation(pairs, eams, g["cutoff"], g["nr"], g["cutoff_rho"], g["nrho"])
+                tab.write(fp)
+        except Exception as e:
+            return {"v": [("rewrite:exception:%s@%s" % (type(e).__name__, libroute.innermost_atsim_frame(e)), "%r\n%s" % (e, ctx))],
+                    "cls": cls, "nt": False}
+        try:
+            vv = verify_setfl(mm, fp.getvalue(), api_order, ctx)
+        except DomainError:
+            return {"v": [], "cls": cls, "nt": False, "skip": True}
+        v += [(("rewrite:" + bk) if n else bk, d) for bk, d in vv]
+        if v:
+            break
+    return {"v": v, "cls": cls, "nt": True}
+
+
 def check_case(m):
     route = m["route"]
     cls = ["route:" + route] + classes(m)
+    if m.get("rewrite"):
+        return _check_rewrite(m, cls)
     nt = bool(set(cls) & {"elements>=3", "reversed_pair", "zero_filled_pair", "zero_filled_function",
                           "override_beats_builtin"})
     target = route.split(":")[1] if ":" in route else "setfl"
